@@ -83,11 +83,14 @@ def sweep(ctx: Ctx):
         plan.append(("first", cls))
     for cls in (rng.sample(flips, 24) if q else flips) + (rng.sample(lens, 12) if q else lens) + types + others + (rng.sample(lentypes, 6) if q else lentypes) + (rng.sample(cuts, 8) if q else cuts):
         plan.append((rng.choice(["implicit_expired", "implicit_closed"]), cls))
-    for cls in (rng.sample(flips, 48) if q else flips) + (rng.sample(lens, 24) if q else lens) + types + others:
+    splits = [f"split:{n}" for n in range(1, 72)]
+    for cls in (rng.sample(splits, 24) if q else splits):
+        plan.append((rng.choice(["first", "first", "expired", "live", "implicit_expired", "implicit_closed"]), cls))
+    for cls in (rng.sample(flips, 48) if q else flips) + (rng.sample(lens, 24) if q else lens) + types + others + (rng.sample(lentypes, 5) if q else lentypes) + (rng.sample(cuts, 10) if q else cuts):
         plan.append(("expired", cls))
         if not q or rng.random() < 0.4:
             plan.append(("live", cls))
-    for cls in ["error", "none"] * (3 if q else 20):
+    for cls in ["error", "none"] * (3 if q else 20) + (rng.sample(cuts, 4) if q else cuts):
         plan.append(("stored", cls))
     for _ in range(ctx.pick(60, 1500)):
         plan.append(("genuine", "valid"))
@@ -175,7 +178,7 @@ def run(ctx: Ctx) -> int:
              "32-byte keys (bytes and hex form) and nonces x {first authentication, re-authentication after the 12 h expiry, explicit "
              "re-authentication of a live session, unknown credentials over stored ones, the re-authentication a send performs on its own after key expiry / "
              "a closed connection} x {all 512 single-bit flips, lengths 0..96, type nibbles 0..15, over-long replies with a pad count in the type byte, "
-             "replies cut off by the transport after 1..71 bytes, reply under another key, error packet, encrypted packet, silence} through Device.authenticate and LAN.authenticate, "
+             "replies cut off by the transport after 1..71 bytes, the genuine reply delivered in two segments cut at 1..71, reply under another key, error packet, encrypted packet, silence} through Device.authenticate and LAN.authenticate, "
              "each followed by two exchanges with a prompt device; distinct = (situation, reply class, credential form, API level)",
         assumptions=["reading F12 (DESIGN 6.1): 'stays unauthenticated' binds handshakes begun unauthenticated; on a live session the forged reply "
                      "must not yield a new key or replace credentials",
